@@ -17,7 +17,7 @@ int main(int argc, char** argv)
 {
   FEAT::Runtime::ScopeGuard guard(argc, argv);
   std::vector<Target> tg;
-  tg.push_back({"bcsr", [](Tape& t, Ctx& c) { bcsr_case(t, c, -1); }, 768, 60});
-  tg.push_back({"bcsr_ilu", [](Tape& t, Ctx& c) { bcsr_case(t, c, c08::K_ILU); }, 768, 60});
+  tg.push_back({"bcsr", [](Tape& t, Ctx& c) { bcsr_case(t, c, -1); }, 192, 14});
+  tg.push_back({"bcsr_ilu", [](Tape& t, Ctx& c) { bcsr_case(t, c, c08::K_ILU); }, 192, 14});
   return main_impl(argc, argv, tg);
 }
